@@ -12,7 +12,7 @@
 From Coq Require Import ZArith List Bool.
 Import ListNotations.
 From Urwid Require Import PyBase ListBoxView ListBoxViewProofs ListBoxWindowProofs ListBoxHistoryProofs ListBoxMouseProofs
-  ListBoxPendingProofs ListBoxPageProofs.
+  ListBoxPendingProofs ListBoxPageProofs ListBoxPageUpProofs.
 Open Scope Z_scope.
 
 (* --- (3) view_ok.  For every list of flow widgets with heights >= 0 (zero-height ones included),
@@ -143,10 +143,24 @@ Example page_down_formerly_failing_case :
   end = (2, 0, false).
 Proof. vm_compute. reflexivity. Qed.
 
-(* NOT proved (stated): 'page up' never raises.  No counterexample in the exhaustive small scopes
-   or in any run (correspondence + regression oracle); 'up', 'down', 'home', 'end' likewise. *)
-Definition page_up_never_raises_full : Prop :=
-  forall s m, ViewOK s -> WidgetsOK (items s) -> 1 <= m -> exists s' b, keypress_page_up s m = Ok (s', b).
+(* --- 'page up' never raises either (same hypotheses; no repair was needed).  The proof shows that
+   every candidate with rows reaches below row -snap_rows of the new page, so that change_focus is
+   always asked for a placement with a visible row and a non-negative snap distance, and that the
+   fallback shift_focus gets an offset that keeps a row of the focus widget in the box. --- *)
+Theorem page_up_never_raises :
+  (forall s m, ViewOK s -> WidgetsOK (items s) -> 1 <= m ->
+     exists s' b, keypress_page_up s m = Ok (s', b) /\ ViewOK s' /\ items s' = items s) /\
+  (forall s m, ViewOK s -> WidgetsOK (items s) -> 1 <= m ->
+     exists s' b, keypress s m KPageUp = Ok (s', b) /\ ViewOK s' /\ items s' = items s).
+Proof. split; [exact page_up_never_raises_lemma | exact keypress_page_up_never_raises_lemma]. Qed.
+Print Assumptions page_up_never_raises.
+
+(* 'home' / 'end' (set_focus to the first / last position + an alignment request) never raise *)
+Theorem home_end_never_raise :
+  forall s m k, k = KHome \/ k = KEnd -> ViewOK s -> WidgetsOK (items s) -> 1 <= m ->
+    exists s' b, keypress s m k = Ok (s', b) /\ ViewOK s' /\ items s' = items s.
+Proof. exact keypress_home_end_never_raise_lemma. Qed.
+Print Assumptions home_end_never_raise.
 
 (* an empty list box renders blank *)
 Theorem empty_list_renders_blank :
